@@ -704,3 +704,58 @@ def mps_initial_state(ctx) -> None:
                f"the user initial state is prepared as {names} (normalised: {normalised}); expected truncate, "
                f"normalise, store, orthogonalize(0)", entry=f.qualname)
     ctx.require(n_user >= 1 and n_default >= 1, "init_initial_state: user/default paths not found")
+
+
+def hamiltonian_refresh(ctx) -> None:
+    """timestep_complete: when the interaction matrix of the next step differs from the current one (SLM mask
+    lifted), the Hamiltonian is rebuilt from the *new* matrix and the new matrix is remembered; otherwise it is kept."""
+    prog = ctx.prog
+    K = prog.cls(MPS)
+    f = K.methods["timestep_complete"]
+
+    def inline(callee, recv, depth):
+        return recv == SELF and callee.name in ("_get_interaction_matrix", "is_finished")
+
+    it = Interp(prog, K, inline=inline)
+    changed = same_ = 0
+    for p in it.run(f):
+        if p.status != "return":
+            continue
+        ev = p.events
+        cmpc = None
+        for c, t in p.cond_log:
+            c0 = strip_typed(c)
+            if c0[0] == "call" and c0[1] in ("torch.allclose", "torch.equal") and \
+                    any(strip_typed(a) == ("attr", SELF, "current_interaction_matrix") for a in c0[2]):
+                cmpc = (c0, t)
+        if cmpc is None:
+            continue
+        c0, same_matrix = cmpc
+        new = [a for a in c0[2] if strip_typed(a) != ("attr", SELF, "current_interaction_matrix")]
+        hs = [e for e in ev if e.kind == "setattr" and e.name == "hamiltonian" and e.target[0] == SELF]
+        ms = [e for e in ev if e.kind == "setattr" and e.name == "current_interaction_matrix" and e.target[0] == SELF]
+        idx = [e for e in ev if e.kind == "setattr" and e.name == "_timestep_index"]
+        after_idx = bool(idx) and all(ev.index(idx[0]) < ev.index(e) for e in hs + ms)
+        # the compared matrix is the one of the *next* step: queried after the index advanced
+        q = [e for e in ev if e.kind == "call" and e.name == ".interaction_matrix"]
+        new_is_next = bool(q) and bool(idx) and ev.index(idx[0]) < ev.index(q[0])
+        if same_matrix:
+            same_ += 1
+            ok = not hs and not ms
+            ctx.ob("INTERACT-refresh", "unchanged matrix keeps the Hamiltonian", f.loc(), ok,
+                   "an unchanged interaction matrix keeps the MPO" if ok else
+                   "the Hamiltonian is rebuilt although the interaction matrix did not change", entry=f.qualname)
+        else:
+            changed += 1
+            ok = len(hs) == 1 and len(ms) == 1 and new and canon(ms[0].value) == canon(new[0]) and after_idx and new_is_next
+            if ok:
+                h = strip_typed(hs[0].value)
+                ok = h[0] == "call" and h[1] == "emu_mps.hamiltonian.make_H" and \
+                    canon(dict(h[3]).get("interaction_matrix")) == canon(new[0])
+            ctx.ob("INTERACT-refresh", "changed matrix rebuilds the Hamiltonian", (hs[0] if hs else f).loc() if hs else f.loc(), bool(ok),
+                   "when the next step's interaction matrix differs (e.g. the SLM mask ends) the MPO is rebuilt from it and "
+                   "it becomes the current matrix" if ok else
+                   "when the interaction matrix of the next step differs from the current one the Hamiltonian is not rebuilt "
+                   "from the new matrix (or the new matrix is not remembered): the run keeps evolving with the SLM-masked "
+                   "interactions after the mask has ended", entry=f.qualname)
+    ctx.require(changed >= 1 and same_ >= 1, "INTERACT-refresh: matrix comparison paths not found in timestep_complete")
